@@ -656,36 +656,59 @@ Proof.
     + apply (rstrip_eol l false).
   - destruct e; [|exact H2]. intro Hin. apply in_app_or in Hin as [Hin|[Hin|[]]]; [now apply H2 | discriminate Hin].
 Qed.
-Lemma lines_of_groups : forall groups, Forall no_lf groups ->
-  flat_map lines_of_chunk (map encode_lines groups) = map (fun x => rstrip (fst x)) (List.concat groups).
+(* the complete lines and the pending rest together are the lines of the data *)
+Lemma raw_lines_split : forall x y,
+  raw_lines (x ++ y)%list = (fst (split_complete x) ++ raw_lines (snd (split_complete x) ++ y))%list.
 Proof.
-  induction groups as [|g gs IH]; intro H; [reflexivity|]. inversion H; subst.
-  cbn [map flat_map List.concat]. rewrite map_app, <- (IH H3).
-  rewrite <- (app_nil_r (encode_lines g)), (lines_of_encoded g [] H2). change (lines_of_chunk []) with (@nil (list Z)). now rewrite app_nil_r.
+  induction x as [|c x IH]; intro y; [reflexivity|]. cbn [List.app raw_lines split_complete].
+  rewrite (IH y). destruct (split_complete x) as [ls p]. cbn [fst snd].
+  destruct (c =? 10) eqn:E; cbn [fst snd List.app].
+  - reflexivity.
+  - destruct ls as [|l ls]; cbn [fst snd List.app raw_lines]; [now rewrite E | reflexivity].
 Qed.
 Close Scope Z_scope.
-
-(* the banner line is found wherever it is in the stream, whatever the segmentation at line ends,
-   the line terminators, and whatever follows it *)
-Theorem stream_banner : forall groups hs b e rest later x,
-  Forall no_lf groups -> List.concat groups = (hs ++ (b, e) :: rest)%list ->
-  (forall h, In h hs -> blank (rstrip (fst h)) = false -> parse (rstrip (fst h)) = None) ->
-  parse (rstrip b) = Some x ->
-  get_banner (map encode_lines groups ++ later)%list = (Some x, filter nonblank (map (fun h => rstrip (fst h)) hs)).
+Lemma banner_loop_app : forall a b,
+  banner_loop (a ++ b)%list =
+  match banner_loop a with
+  | (Some x, h) => (Some x, h)
+  | (None, h) => let (y, h2) := banner_loop b in (y, (h ++ h2)%list)
+  end.
 Proof.
-  intros groups hs b e rest later x Hlf Hc Hh Hb. unfold get_banner.
-  rewrite flat_map_app, (lines_of_groups groups Hlf), Hc, map_app. cbn [map fst].
-  rewrite <- app_assoc. cbn [List.app]. apply header_separation; [|exact Hb].
-  intros h Hin. apply in_map_iff in Hin as [h0 [E Hin]]. subst h. now apply Hh.
+  induction a as [|l a IH]; intro b; cbn [List.app banner_loop].
+  - now destruct (banner_loop b).
+  - destruct (blank l); [apply IH|]. destruct (parse l); [reflexivity|]. rewrite (IH b).
+    destruct (banner_loop a) as [[x|] h]; [reflexivity|]. now destruct (banner_loop b).
+Qed.
+Lemma gb_loop_whole : forall chunks pend,
+  gb_loop pend chunks = banner_loop (lines_of_chunk (pend ++ List.concat chunks)%list).
+Proof.
+  induction chunks as [|c r IH]; intro pend; cbn [gb_loop List.concat].
+  - now rewrite app_nil_r.
+  - rewrite app_assoc. unfold lines_of_chunk. rewrite (raw_lines_split (pend ++ c) (List.concat r)).
+    destruct (split_complete (pend ++ c)%list) as [ls p]. cbn [fst snd]. rewrite map_app, banner_loop_app.
+    destruct (banner_loop (map rstrip ls)) as [[x|] h]; [reflexivity|]. now rewrite (IH p).
 Qed.
 
-(* recorded finding: a line that is split across two recv() results is not reassembled *)
-Theorem segmentation_refuted : exists l1 l2,
-  ~ In 10%Z (l1 ++ l2)%list /\ fst (get_banner [l1; (l2 ++ [13; 10])%list]%Z) <> fst (get_banner [(l1 ++ l2 ++ [13; 10])%list]%Z).
+(* segmentation independence: however the byte stream is cut into recv() results, the banner and the
+   header text are those of the uncut stream *)
+Theorem segmentation_independent : forall chunks,
+  get_banner chunks = banner_loop (lines_of_chunk (List.concat chunks)).
+Proof. intro chunks. unfold get_banner. now rewrite gb_loop_whole. Qed.
+Theorem segmentation_irrelevant : forall c1 c2, List.concat c1 = List.concat c2 -> get_banner c1 = get_banner c2.
+Proof. intros c1 c2 H. now rewrite !segmentation_independent, H. Qed.
+
+(* the banner line is found wherever it is in the stream, whatever the segmentation,
+   the line terminators, and whatever follows it *)
+Theorem stream_banner : forall chunks ls hs b e rest later x,
+  List.concat chunks = (encode_lines ls ++ later)%list -> no_lf ls -> ls = (hs ++ (b, e) :: rest)%list ->
+  (forall h, In h hs -> blank (rstrip (fst h)) = false -> parse (rstrip (fst h)) = None) ->
+  parse (rstrip b) = Some x ->
+  get_banner chunks = (Some x, filter nonblank (map (fun h => rstrip (fst h)) hs)).
 Proof.
-  exists (cps "SSH-2.0-Open"), (cps "SSH_8.9p1"). split.
-  - vm_compute. intuition discriminate.
-  - vm_compute. discriminate.
+  intros chunks ls hs b e rest later x Hc Hlf Hls Hh Hb.
+  rewrite segmentation_independent, Hc, (lines_of_encoded ls later Hlf), Hls, map_app. cbn [map fst].
+  rewrite <- app_assoc. cbn [List.app]. apply header_separation; [|exact Hb].
+  intros h Hin. apply in_map_iff in Hin as [h0 [E Hin]]. subst h. now apply Hh.
 Qed.
 
 (* ---------- C16 (e): product and version extraction ---------- *)
